@@ -34,3 +34,54 @@ def handle(c):
                                             min_mw=c['min_mw'], min_length=c['min_len'], max_length=c['max_len'])
         return sorted(pool)
     raise ValueError(k)
+
+# ---- CLI-level pools: generateIndex / updateIndex / on-the-fly load_references ----
+import os, sys, shutil, argparse
+sys.path.insert(0, os.path.dirname(os.path.dirname(os.path.dirname(os.path.abspath(__file__)))))
+_wd = None
+def init(wd):
+    global _wd
+    _wd = wd
+
+def _cli_pool(c):
+    from harness.lib import gen_reference as G
+    import _cli
+    from moPepGen.index import IndexDir
+    from moPepGen.params import CleavageParams
+    from moPepGen.cli import common
+    d = os.path.join(_wd, 'case')
+    shutil.rmtree(d, ignore_errors=True)
+    os.makedirs(d)
+    g, a, p = G.write_world(c['world'], d)
+    out = {}
+    def cl(ps):
+        return ['-c', ps['rule'], '--cleavage-exception', ps['exc'], '-m', ps['k'], '-w', ps['min_mw'],
+                '-l', ps['min_len'], '-x', ps['max_len']]
+    def cp(ps):
+        return CleavageParams(enzyme=ps['rule'], exception=ps['exc'], miscleavage=int(ps['k']), min_mw=float(ps['min_mw']),
+                              min_length=int(ps['min_len']), max_length=int(ps['max_len']))
+    idx = os.path.join(d, 'index')
+    _cli.run(['generateIndex', '-g', g, '-a', a, '-p', p, '-o', idx, '--quiet'] + cl(c['params'][0]))
+    for ps in c['params'][1:]:
+        _cli.run(['updateIndex', '--index-dir', idx, '--quiet'] + cl(ps))
+    pools = []
+    for ps in c['params']:
+        pools.append(sorted(IndexDir(__import__('pathlib').Path(idx)).load_canonical_peptides(cp(ps))))
+    out['index'] = pools
+    fly = []
+    from pathlib import Path
+    for ps in c['params']:
+        ns = argparse.Namespace(index_dir=None, genome_fasta=Path(g), annotation_gtf=Path(a), proteome_fasta=Path(p),
+                                reference_source=None, cleavage_rule=ps['rule'], cleavage_exception=ps['exc'],
+                                miscleavage=ps['k'], min_mw=ps['min_mw'], min_length=ps['min_len'], max_length=ps['max_len'])
+        _, _, _, pool = common.load_references(ns, load_genome=False, load_canonical_peptides=True, cleavage_params=cp(ps))
+        fly.append(sorted(pool))
+    out['fly'] = fly
+    shutil.rmtree(d, ignore_errors=True)
+    return out
+
+_old_handle = handle
+def handle(c):
+    if c['kind'] == 'pool_cli':
+        return _cli_pool(c)
+    return _old_handle(c)
